@@ -369,11 +369,18 @@ class CallTracer:
             if type(arg).__name__ != "async_generator_wrapped_value":
                 return
             (arg,) = gc.get_referents(arg)
-        typ = get_type(arg, max_typed_dict_size=self.max_typed_dict_size)
         trace = self.traces.get(frame)
         if trace is None:
             return
-        elif last_opcode == YIELD_VALUE_OPCODE:
+        try:
+            typ = get_type(arg, max_typed_dict_size=self.max_typed_dict_size)
+        except Exception:
+            # A value that cannot be typed (nested deeper than the recursion
+            # limit, say): the trace cannot be completed. Don't keep its entry
+            # for ever; the failure itself is reported by __call__.
+            del self.traces[frame]
+            raise
+        if last_opcode == YIELD_VALUE_OPCODE:
             # A coroutine suspending on an `await` also leaves its frame with
             # YIELD_VALUE; that is not a yield of the traced function.
             if not flags & inspect.CO_COROUTINE:
